@@ -84,6 +84,18 @@ def check(ctx):
             f = ctx.fn(f"{cls}.{m}", MEM)
             s = ctx.sites(f, "self.close()")
             ctx.ob("R13-b", f, f"{m} delegates to close()", len(s) == 1, detail="" if s else f"{cls}.{m} does not call self.close()", by=("self.close()",))
+            # ... on every exit, the cancellation of an await placed before it included: leaving `async with stream` while cancelled
+            # must still close the handle, or the other side is never woken
+
+            def step_cl(st, e, c):
+                return True
+
+            def at_exit_cl(kind, st, facts, m=m):
+                if not st:
+                    return f"{cls}.{m} can leave ({kind}) without having closed the handle (e.g. a checkpoint before close() raises the pending cancellation)"
+                return None
+
+            ctx.paths("R13-b", f, [("close", "self.close()")], step_cl, False, at_exit_cl, instance=f"{cls}.{m}: the handle is closed on every exit", native=True)
 
         # ---- R13-b last close wakes the other side -------------------------------------------------------------
         loops = [n for n in own_walk(close.node) if isinstance(n, ast.For) and isinstance(n.target, ast.Name)
@@ -190,3 +202,7 @@ def check(ctx):
         ctx.require_at("R13-c", sn, st, [["not self._closed", "self._state.open_receive_channels"],
                                         ["not self._closed", "not self._state.open_receive_channels == 0"]],
                        instance="an item is accepted only while a receive handle is open")
+
+    # ---- R13-d `async for` ends exactly on EndOfStream (a closed own handle is an error, not a clean end) -----------------------------
+    from .common import iteration_protocol
+    iteration_protocol(ctx, "R13-d", "UnreliableObjectReceiveStream")
